@@ -46,6 +46,7 @@ def apply_history(H, W, hist, ctor_kwargs=None):
     cargs = tuple(ck.pop("_args", ()))          # positional formatting arguments of the constructor
     a = FSArray(H, W, *cargs, **ck)
     model = [[BL] * W for _ in range(H)]
+    held = []           # FSArray blocks assigned so far (must stay what they were)
     for step, (r0, r1, c0, c1, blockspec, as_array, int_index) in enumerate(hist):
         block = [mkrow(b) for b in blockspec]
         if as_array:
@@ -69,6 +70,8 @@ def apply_history(H, W, hist, ctor_kwargs=None):
                 # "into existing content beyond the region": longer than the region while the row shows content right of it.
                 into_content = len(bc) > rw and any(x != BL for x in old[c1:])
                 too_long.append(past_width or into_content)
+        block_is_array = hasattr(block, "rows") and hasattr(block, "num_columns")
+        block_before = (grid(block), len(block.rows)) if block_is_array else None
         try:
             if int_index:
                 a[r0, c0:c1] = block
@@ -78,6 +81,14 @@ def apply_history(H, W, hist, ctor_kwargs=None):
         except Exception as e:
             raised = e
         after = grid(a)
+        # the block is a value: assigning it neither changes it nor ties it to the array (no shared row list)
+        if block_is_array:
+            if (grid(block), len(block.rows)) != block_before:
+                return f"step {step}: the assignment changed its block (an FSArray): {show(block_before[0])} -> {show(grid(block))}"
+            held.append((block, block_before, step))
+        for hb, hb_before, hstep in held:
+            if (grid(hb), len(hb.rows)) != hb_before:
+                return f"step {step}: the FSArray assigned in step {hstep} changed when the array was assigned to later: {show(hb_before[0])} -> {show(grid(hb))}"
         if any(r and r[0] == "TOOWIDE" for r in after):
             return f"step {step}: a row is wider than the array: {show(after)}"
         if rh == 0 or rw == 0:
@@ -124,6 +135,19 @@ def apply_history(H, W, hist, ctor_kwargs=None):
                     return f"step {step}: a[{r}] reads back {got}"
         except Exception as e:
             return f"step {step}: reading back raised {type(e).__name__}: {e}"
+    return _array_unaffected_by_blocks(a, held)
+
+
+def _array_unaffected_by_blocks(a, held):
+    """growing a block that was assigned earlier must not show in the array"""
+    for hb, _, hstep in held:
+        before = (grid(a), len(a.rows))
+        try:
+            hb[len(hb.rows):len(hb.rows) + 1, 0:0] = [""]
+        except Exception:       # noqa: BLE001
+            pass
+        if (grid(a), len(a.rows)) != before:
+            return f"growing the FSArray that was assigned in step {hstep} changed the array: {show(before[0])} -> {show(grid(a))}"
     return ""
 
 
